@@ -2,7 +2,7 @@
 Helper lemmas about the Python primitives of `Model/Py.lean` (ranges, loops as folds, true division,
 prefix sums, slices), used by `Props/Translated.lean`.
 -/
-import FastTicc.Generated.Kernels
+import FastTicc.Model.Py
 import FastTicc.Model.Stack
 import FastTicc.Model.Index
 import FastTicc.Model.Viterbi
@@ -182,19 +182,6 @@ def outerBody (cost : Py.Arr2 α) (lsc : Py.Arr1 α) (K : Int) (i : Int)
 
 def pathBody (pm : Py.Arr2 Int) (i : Int) (path : List Int) : List Int :=
   Py.setItem path (i + 1) (pm.get2 i (Py.getItem path i))
-
-theorem gen_viterbi_structured (cost : Py.Arr2 α) (sov : Py.ScalarOrVec α) :
-    Gen.assign_point_cluster_labels cost sov =
-      (let T := cost.shape0
-       let K := cost.shape1
-       let lsc := Py.broadcastAdd (Py.Arr1.const T (0 : α)) sov
-       let r := Py.forEach (Py.range (T - 2) (-1) (-1)) (Py.Arr2.const T K (0 : Int), Py.Arr2.const T K (0 : α))
-                  (outerBody cost lsc K)
-       let path0 := Py.setItem (Py.repeatList [(-1 : Int)] T) 0
-                      (Py.Arr1.argmin (Py.Arr1.add (r.2.row 0) (cost.row 0)))
-       let cst := r.2.get2 0 (Py.getItem path0 0) + cost.get2 0 (Py.getItem path0 0)
-       (Py.forEach (Py.range 0 (T - 1) 1) path0 (pathBody r.1), cst)) := rfl
-
 
 theorem idx_nat (n i : Nat) : Py.idx n (i : Int) = i := by
   unfold Py.idx
